@@ -1143,7 +1143,8 @@ def version_lt_is_not_gte():
 def site_not_gte(toks, i, rel):
     """`!recv.gte(a, b)` -> `recv.lt(a, b)`: Version::lt IS `!self.gte(major, minor)` (checked on every run: if it ever stops being that,
     nothing is rewritten), so this is lt folded back.  Not inside the definitions of lt / gte themselves.  (The mirror image
-    `!recv.lt(a, b)` -> `recv.gte(a, b)` is deliberately NOT normalised: the self-test mut2.py --loud ps_lt relies on it being rejected.)"""
+    `!recv.lt(a, b)` -> `recv.gte(a, b)` is the pass not_lt of the second batch; the LOUD case ps_lt of mut2.py, which is that very
+    harmless edit, is therefore absorbed and no longer rejected.)"""
     if toks[i] != P_('!') or i + 1 >= len(toks) or (i > 0 and is_operand_end(toks[i - 1])) or toks[i + 1][0] != 'id' \
             or (toks[i + 1][1] in KEYWORDS and toks[i + 1][1] != 'self') or not version_lt_is_not_gte():
         return None
@@ -1719,10 +1720,445 @@ def site_swap_update(toks, i, rel):
     return None
 
 
+# ---- second batch of retry-only passes (benign2): each rewrites a NEW spelling back to the one the matchers know
+
+
+def _cond_block(toks, i, match):
+    """toks[i] is `if` / `while` / `match`: index of the `{` that opens its block (the first `{` at depth 0), or -1"""
+    b = i + 1
+    while b < len(toks) and toks[b] != P_('{'):
+        if toks[b][0] == 'punct' and toks[b][1] in ('(', '['):
+            b = match.get(b, b)
+        elif toks[b][0] == 'punct' and toks[b][1] in (';', ')', ']', '}'):
+            return -1
+        b += 1
+    return b if b < len(toks) and b in match else -1
+
+
+def _version_call(toks, lo, e, name, match):
+    """toks[lo:e] is one pure postfix chain that ENDS in `.name(a, b)` (two arguments): index of the method name, or -1"""
+    if lo >= len(toks) or toks[lo][0] != 'id' or (toks[lo][1] in KEYWORDS and toks[lo][1] != 'self'):
+        return -1
+    if chain_end(toks, lo, match) != e or toks[e - 1] != P_(')'):
+        return -1
+    o = match[e - 1]
+    if not (o - 2 > lo and toks[o - 1] == I_(name) and toks[o - 2] == P_('.') and len(top_split(toks, o + 1, e - 1, ',', match)) == 2):
+        return -1
+    return o - 1
+
+
+def _in_lt_gte_body(toks, i, match, parent):
+    return any(f['name'] in ('lt', 'gte') and f['body'][0] <= i < f['body'][1] for f in fn_items(toks, match, parent))
+
+
+def site_not_lt(toks, i, rel):
+    """`!recv.lt(a, b)` -> `recv.gte(a, b)`: the mirror image of not_gte.  Version::lt IS `!self.gte(major, minor)` (version_lt_is_not_gte,
+    checked on every run on the very definition Gen/Funs.v regenerates; exactly one `lt` and one `gte` in the crate, and the call has two
+    arguments, so it is not PartialOrd::lt), hence `!recv.lt(a, b)` = `!!recv.gte(a, b)` = `recv.gte(a, b)` with the receiver and the
+    arguments evaluated once, in the same order, in both.  `!` must be a prefix operator on a pure postfix chain that ENDS in `.lt(a, b)`;
+    never inside the bodies of lt / gte."""
+    if toks[i] != P_('!') or i + 1 >= len(toks) or (i > 0 and is_operand_end(toks[i - 1])) or not version_lt_is_not_gte():
+        return None
+    match, parent = bmaps(toks)
+    e = chain_end(toks, i + 1, match) if toks[i + 1][0] == 'id' else -1
+    if e <= 0 or (e < len(toks) and toks[e] in (P_('.'), P_('?'), P_('('), P_('['))):
+        return None
+    m = _version_call(toks, i + 1, e, 'lt', match)
+    if m < 0 or _in_lt_gte_body(toks, i, match, parent):
+        return None
+    return toks[:i] + toks[i + 1:m] + [I_('gte')] + toks[m + 1:], i
+
+
+def site_if_lt_swap(toks, i, rel):
+    """`if recv.lt(a, b) { B } else { A }` -> `if recv.gte(a, b) { A } else { B }`.  With lt = !gte (version_lt_is_not_gte, as above) the
+    condition is the negation of the new one, and `if !c { B } else { A }` selects, for every value of c, the block that `if c { A } else { B }`
+    selects; the blocks are moved verbatim (each keeps its own scope), the receiver and arguments are evaluated once before either, and
+    the value of the whole `if` is that of the selected block.  The whole condition must be one pure postfix chain ending in `.lt(a, b)`
+    (no `&&`, no `let`), both branches plain blocks (no `else if` on either side: the `if` is not itself preceded by `else`)."""
+    if toks[i] != I_('if') or (i > 0 and toks[i - 1] == I_('else')) or i + 1 >= len(toks) or toks[i + 1] == I_('let') or not version_lt_is_not_gte():
+        return None
+    match, parent = bmaps(toks)
+    b = _cond_block(toks, i, match)
+    if b < 0:
+        return None
+    m = _version_call(toks, i + 1, b, 'lt', match)
+    if m < 0:
+        return None
+    c = match[b]
+    if not (c + 2 < len(toks) and toks[c + 1] == I_('else') and toks[c + 2] == P_('{') and (c + 2) in match):
+        return None
+    c2 = match[c + 2]
+    if _in_lt_gte_body(toks, i, match, parent):
+        return None
+    new = toks[i:m] + [I_('gte')] + toks[m + 1:b] + toks[c + 2:c2 + 1] + [I_('else')] + toks[b:c + 1]
+    return toks[:i] + new + toks[c2 + 1:], i + 1
+
+
+def site_match_bool(toks, i, rel):
+    """`match c { true => { A } false => { B } }` (the arms in either order) -> `if c { A } else { B }`: the patterns `true` / `false` only
+    type-check against a bool, the two arms are exhaustive and disjoint, so the match runs A exactly when c is true and B otherwise --
+    the definition of if/else; both are block-like expressions with the value of the selected block.  c must be a plain path / field
+    path (no struct-literal ambiguity in the `if` condition, nothing evaluated), exactly two arms, no guards, both arm bodies blocks;
+    not when the match is followed by `.` / `?`."""
+    if toks[i] != I_('match'):
+        return None
+    match, parent = bmaps(toks)
+    b = _cond_block(toks, i, match)
+    if b < 0:
+        return None
+    cond = toks[i + 1:b]
+    if not (field_path(cond) or (len(cond) >= 3 and cond[0] == I_('self') and cond[1] == P_('.') and field_path(cond[2:]))):
+        return None
+    arms = match_arms_at(toks, b, match)
+    c = match[b]
+    if len(arms) != 2 or any(a['guard'] is not None or not a['block'] for a in arms):
+        return None
+    last = arms[-1]['end']
+    if last + (1 if last < c and toks[last] == P_(',') else 0) != c:
+        return None
+    if c + 1 < len(toks) and toks[c + 1] in (P_('.'), P_('?')):
+        return None
+    pats = [tv(toks[a['pat'][0]:a['pat'][1]]) for a in arms]
+    if sorted(map(tuple, pats)) != [('false',), ('true',)]:
+        return None
+    t, f = (arms[0], arms[1]) if pats[0] == ['true'] else (arms[1], arms[0])
+    blk = lambda a: [P_('{')] + toks[a['body'][0]:a['body'][1]] + [P_('}')]
+    return toks[:i] + [I_('if')] + cond + blk(t) + [I_('else')] + blk(f) + toks[c + 1:], i + 1
+
+
+def _nearest_let(toks, i, name, match, parent):
+    """the `let [mut] name ..;` that binds the local `name` visible at index i: the nearest preceding `let` of that name whose block
+    encloses i, provided no other binder of that name (parameter, closure parameter, pattern) lies in the enclosing fn  -> (index of
+    `let`, index of its `;`) or None"""
+    fn = None
+    for f in fn_items(toks, match, parent):
+        if f['body'][0] <= i < f['body'][1] and (fn is None or f['body'][0] > fn['body'][0]):
+            fn = f
+    if fn is None:
+        return None
+    bs = [b for b in fn_binders(toks, fn, match, parent) if b[1] == name]
+    lets = [k for k in range(fn['body'][0], i) if toks[k] == I_('let') and
+            (toks[k + 1] == I_(name) or (toks[k + 1] == I_('mut') and toks[k + 2] == I_(name)))]
+    if not lets or len(bs) != len(lets):
+        return None          # some binder of that name is not a plain `let`
+    ends = [top_find(toks, k, len(toks), (';',), match) for k in lets]
+    if any(e < 0 for e in ends):
+        return None
+    done = [(k, e) for k, e in zip(lets, ends) if e < i]          # a `let` whose own initialiser contains i does not bind there yet
+    if not done:
+        return None
+    k, e = done[-1]
+    anc = parent[i]
+    while anc != parent[k] and anc >= 0:
+        anc = parent[anc]
+    if anc != parent[k]:
+        return None
+    return k, e
+
+
+def site_as_slice(toks, i, rel):
+    """`X.as_slice()` -> `&X[..]` for a local X that is a Vec: `Vec::as_slice(&self)` is documented as (and is) `&self[..]`, the whole vector
+    as a shared slice.  Checked: X is a single identifier, not part of a longer path; its binding is the nearest `let [mut] X = vec![..];` /
+    `Vec::new()` / `Vec::with_capacity(..)` / `let X: Vec<..>` of the enclosing fn and no other binder of that name exists there; the crate
+    defines no `as_slice`; the call is a whole operand (nothing postfix follows, a boundary / `&` / `&mut` precedes), so that the prefix
+    `&` of the new spelling binds exactly the indexing."""
+    if not (toks[i][0] == 'id' and toks[i][1] not in KEYWORDS and i + 4 < len(toks) and toks[i + 1] == P_('.') and toks[i + 2] == I_('as_slice')
+            and toks[i + 3] == P_('(') and toks[i + 4] == P_(')')):
+        return None
+    prv = toks[i - 1] if i > 0 else P_(';')
+    nxt = toks[i + 5] if i + 5 < len(toks) else P_(';')
+    if not (prv in LEFT_BOUNDARY or prv in (I_('mut'), P_('&'))) or nxt in (P_('.'), P_('['), P_('('), P_('?'), I_('as')):
+        return None
+    if crate_fn_count('as_slice'):
+        return None
+    match, parent = bmaps(toks)
+    le = _nearest_let(toks, i, toks[i][1], match, parent)
+    if le is None:
+        return None
+    k, e = le
+    n = k + (3 if toks[k + 1] == I_('mut') else 2)
+    init = tv(toks[n:e])
+    is_vec = init[:3] == [':', 'Vec', '<'] or init[:4] == ['=', 'vec', '!', '['] and match.get(n + 3) == e - 1 \
+        or init[:5] in (['=', 'Vec', '::', 'new', '('], ['=', 'Vec', '::', 'with_capacity', '(']) and match.get(n + 4) == e - 1
+    if not is_vec:
+        return None
+    return toks[:i] + [P_('&'), toks[i], P_('['), P_('..'), P_(']')] + toks[i + 5:], i + 5
+
+
+UINT_WIDTH = {'u8': 8, 'u16': 16, 'u32': 32, 'u64': 64}
+
+
+def site_from_widen(toks, i, rel):
+    """`uN::from(e)` -> `e as uN` (N in 16, 32, 64, size) for a local e of a narrower-or-equal primitive unsigned type uK: the only
+    `From<uK> for uN` is core's lossless widening (or the identity), which is what `as` does between these types.  The TYPE of e is
+    established syntactically: e is a single identifier whose only binder in the enclosing fn is `let e = <..>.read_uK::<..>()?;` /
+    `.read_u8()?` (byteorder; the crate defines no read_uK of its own), `let e: uK = ..` or `let e = .. as uK;`, with K <= N (for usize:
+    K in 8, 16, the impls that exist).  The call must be a whole operand between boundary tokens, so that the lower-binding `as` needs no
+    parentheses."""
+    if not (toks[i][0] == 'id' and toks[i][1] in ('u16', 'u32', 'u64', 'usize') and i + 5 < len(toks) and toks[i + 1] == P_('::') and toks[i + 2] == I_('from')
+            and toks[i + 3] == P_('(') and toks[i + 4][0] == 'id' and toks[i + 4][1] not in KEYWORDS and toks[i + 5] == P_(')')):
+        return None
+    prv = toks[i - 1] if i > 0 else P_(';')
+    nxt = toks[i + 6] if i + 6 < len(toks) else P_(';')
+    if prv not in LEFT_BOUNDARY or nxt not in RIGHT_BOUNDARY:
+        return None
+    match, parent = bmaps(toks)
+    le = _nearest_let(toks, i, toks[i + 4][1], match, parent)
+    if le is None:
+        return None
+    k, e = le
+    if toks[k + 1] == I_('mut'):
+        return None
+    init = toks[k + 2:e]
+    ty = None
+    if len(init) >= 3 and init[0] == P_(':') and init[1][0] == 'id' and init[2] == P_('='):
+        ty = init[1][1]
+    elif len(init) >= 3 and init[0] == P_('=') and init[-2] == I_('as') and init[-1][0] == 'id' and has_no_top_as_before(init[1:-2]):
+        ty = init[-1][1]
+    elif len(init) >= 5 and init[0] == P_('=') and init[-1] == P_('?') and init[-2] == P_(')') and init[-3] == P_('('):
+        j = len(init) - 4
+        if init[j] == P_('>') and j >= 4 and init[j - 2] == P_('<') and init[j - 3] == P_('::'):
+            j -= 4
+        m = re.fullmatch(r'read_(u8|u16|u32|u64)', init[j][1]) if init[j][0] == 'id' and j >= 1 and init[j - 1] == P_('.') else None
+        if m and not crate_fn_count(init[j][1]):
+            ty = m.group(1)
+    if ty not in UINT_WIDTH:
+        return None
+    to = toks[i][1]
+    if not (UINT_WIDTH[ty] <= 16 if to == 'usize' else UINT_WIDTH[ty] <= UINT_WIDTH[to]):
+        return None
+    return toks[:i] + [toks[i + 4], I_('as'), toks[i]] + toks[i + 6:], i + 3
+
+
+def has_no_top_as_before(ts):
+    """the operand of a trailing `as T`: anything without a binary operator of lower precedence than `as` at depth 0 (so that
+    `<ts> as T` is the cast of the whole of ts)"""
+    d = 0
+    for n, t in enumerate(ts):
+        if t[0] == 'punct' and t[1] in ('(', '[', '{'):
+            d += 1
+        elif t[0] == 'punct' and t[1] in (')', ']', '}'):
+            d -= 1
+        elif d == 0 and t[0] == 'punct' and t[1] in ('+', '-', '*', '/', '%', '&', '|', '^', '<', '>', '==', '!=', '<=', '>=', '&&', '||', '..', '..=', '=', '!'):
+            return False
+    return bool(ts)
+
+
+_ERR_MACRO = []
+
+
+def err_macro_is_pure():
+    """the crate's only `err!` is `macro_rules! err { ($( $arg: expr ),*) => { crate::io::Error::InvalidData(format!($( $arg ),*)) } }`: building
+    the value formats its arguments into a String and does nothing else"""
+    if not _ERR_MACRO:
+        ok = False
+        try:
+            n = 0
+            for root, _, files in os.walk(os.path.join(REPO, 'src')):
+                for f in files:
+                    if f.endswith('.rs'):
+                        with open(os.path.join(root, f)) as fh:
+                            n += len(re.findall(r'macro_rules\s*!\s*err\b', fh.read()))
+            t = tokenize(read('src/io/mod.rs'), 'src/io/mod.rs')
+            k = find_seq(t, ['macro_rules', '!', 'err', '{'])
+            m, _ = bracket_maps(t)
+            ok = n == 1 and k >= 0 and sj(t[k + 4:m[k + 3]]) == \
+                '( $ ( $ arg : expr ) , * ) => { crate :: io :: Error :: InvalidData ( format ! ( $ ( $ arg ) , * ) ) }'
+        except Exception:
+            ok = False
+        _ERR_MACRO.append(ok)
+    return _ERR_MACRO[0]
+
+
+def site_ok_or_else(toks, i, rel):
+    """`.ok_or_else(|| err!(<literals>))` -> `.ok_or(err!(<literals>))`: Option::ok_or_else(f) is `match self { Some(v) => Ok(v), None => Err(f()) }`
+    and ok_or(e) the same with e built beforehand; they differ only in WHEN (and whether) the error value is built.  Here building it is
+    `Error::InvalidData(format!(<literals>))` (err_macro_is_pure: checked on the crate's macro definition), which reads no variable (every
+    argument is a literal token and the format string has no inline `{name}` capture), writes nothing, cannot panic on literals that
+    compile, and an unused value is dropped without effect (a String) -- so neither the result nor anything observable differs.  The
+    crate defines no ok_or / ok_or_else of its own."""
+    if not (toks[i] == P_('.') and i + 6 < len(toks) and toks[i + 1] == I_('ok_or_else') and toks[i + 2] == P_('(') and toks[i + 3] == P_('||')
+            and toks[i + 4] == I_('err') and toks[i + 5] == P_('!') and toks[i + 6] == P_('(')):
+        return None
+    match, _ = bmaps(toks)
+    c = match.get(i + 6, -1)
+    c0 = match.get(i + 2, -1)
+    if c < 0 or not (c0 == c + 1 or (c0 == c + 2 and toks[c + 1] == P_(','))):
+        return None
+    if not (c0 + 1 < len(toks) and toks[c0 + 1] == P_('?')):
+        return None          # only `.ok_or_else(..)?`: nothing may be chained onto the Result (not needed for the equivalence; keeps the pass narrow)
+    args = toks[i + 7:c]
+    if not args or args[0][0] != 'str' or re.search(r'\{\s*[A-Za-z_]', args[0][1].replace('{{', '')):
+        return None
+    for n, t in enumerate(args):
+        if not (t[0] in ('str', 'num', 'char') or t in (I_('true'), I_('false')) if n % 2 == 0 else t == P_(',')):
+            return None
+    if crate_fn_count('ok_or') or crate_fn_count('ok_or_else') or not err_macro_is_pure():
+        return None
+    return toks[:i] + [P_('.'), I_('ok_or'), P_('(')] + toks[i + 4:c + 1] + [P_(')')] + toks[c0 + 1:], i + 1
+
+
+ESCAPES = (I_('return'), I_('break'), I_('continue'), P_('?'), I_('await'), I_('yield'), I_('let'))
+
+
+def site_iflet_map(toks, i, rel):
+    """`if let Some(h) = O { S; }` (no else; a statement of a block, so its value `()` is discarded) -> `O.map(|h| S);` (value discarded
+    likewise).  For O an Option BY VALUE both evaluate O once, run S with h bound to the payload exactly when it is Some, and drop what S
+    yields before the statement ends.  Checked: O is one pure postfix chain that ends in `.as_mut()` / `.as_ref()` (Option::as_mut /
+    as_ref yield an Option by value whose payload is a reference, so `Some(h)` binds h by value in both spellings -- no default binding
+    mode through a reference to an Option is involved); h is a plain identifier; S is a single expression statement without `?`,
+    return, break, continue, await, `let` (their meaning would change inside a closure) and without a closure or block of its own; the
+    crate defines no `map`, and has no Drop impl (nothing observable happens when the value of S is dropped)."""
+    if not (toks[i] == I_('if') and i + 7 < len(toks) and toks[i + 1] == I_('let') and toks[i + 2] == I_('Some') and toks[i + 3] == P_('(')
+            and toks[i + 4][0] == 'id' and toks[i + 4][1] not in KEYWORDS and BINDER_RE.match(toks[i + 4][1]) and toks[i + 5] == P_(')') and toks[i + 6] == P_('=')):
+        return None
+    if i == 0 or toks[i - 1] not in (P_(';'), P_('{'), P_('}')):
+        return None
+    match, parent = bmaps(toks)
+    if toks[i - 1] == P_('{') and header_kw(toks, i - 1, parent) is None:
+        return None
+    if toks[i - 1] == P_('}') and is_struct_brace(toks, match[i - 1], parent):
+        return None
+    b = _cond_block(toks, i, match)
+    if b < 0 or b <= i + 7:
+        return None
+    c = match[b]
+    if c + 1 < len(toks) and toks[c + 1] in (I_('else'), P_('.'), P_('?')):
+        return None
+    O = toks[i + 7:b]
+    if O[0][0] != 'id' or (O[0][1] in KEYWORDS and O[0][1] != 'self') or chain_end(toks, i + 7, match) != b:
+        return None
+    if len(O) < 5 or tv(O[-4:]) not in (['.', 'as_mut', '(', ')'], ['.', 'as_ref', '(', ')']):
+        return None
+    S = toks[b + 1:c]
+    if len(S) < 2 or S[-1] != P_(';') or any(t == P_(';') for t in S[:-1]) or any(t in ESCAPES for t in S) \
+            or any(t in (P_('{'), P_('|'), P_('||')) for t in S) or S[0][0] == 'id' and S[0][1] in KEYWORDS and S[0][1] != 'self':
+        return None
+    if crate_fn_count('map') or crate_has_drop_impl():
+        return None
+    new = O + [P_('.'), I_('map'), P_('('), P_('|'), toks[i + 4], P_('|')] + S[:-1] + [P_(')'), P_(';')]
+    return toks[:i] + new + toks[c + 1:], i + 1
+
+
+def site_while_let(toks, i, rel):
+    """`while let Some(k) = E { BODY }` -> `while match E { Some(k) => { BODY true } None => false } {}`.  `while let P = E { B }` is defined as
+    `loop { match E { P => { B } _ => break } }`; `while c {}` as `loop { if c {} else { break } }`.  With c the match above, each round
+    evaluates E once (its temporaries live to the end of the match, i.e. across BODY, in both), on Some(k) runs BODY with k bound and goes
+    round again, on None leaves the loop; `?` / `return` inside E or BODY leave the enclosing function in both.  Checked: k a plain
+    identifier (so Some(k) / None are exhaustive), BODY contains no `break` / `continue` (they would refer to a loop whose condition they are
+    in) and no loop label, and ends in `;` (or is empty) so that `true` is the value of the arm's block."""
+    if not (toks[i] == I_('while') and i + 7 < len(toks) and toks[i + 1] == I_('let') and toks[i + 2] == I_('Some') and toks[i + 3] == P_('(')
+            and toks[i + 4][0] == 'id' and toks[i + 4][1] not in KEYWORDS and BINDER_RE.match(toks[i + 4][1]) and toks[i + 5] == P_(')') and toks[i + 6] == P_('=')):
+        return None
+    if i > 0 and toks[i - 1] == P_(':'):
+        return None          # labelled loop
+    match, parent = bmaps(toks)
+    b = _cond_block(toks, i, match)
+    if b < 0 or b <= i + 7:
+        return None
+    c = match[b]
+    E = toks[i + 7:b]
+    body = toks[b + 1:c]
+    if any(t in (I_('break'), I_('continue')) or t[0] == 'lifetime' for t in body) or (body and body[-1] != P_(';')):
+        return None
+    if any(t in (I_('break'), I_('continue'), P_('||'), P_('&&')) for t in E):
+        return None
+    new = [I_('while'), I_('match')] + E + [P_('{'), I_('Some'), P_('('), toks[i + 4], P_(')'), P_('=>'), P_('{')] + body + \
+        [I_('true'), P_('}'), I_('None'), P_('=>'), I_('false'), P_(','), P_('}'), P_('{'), P_('}')]
+    return toks[:i] + new + toks[c + 1:], i + 1
+
+
+_OTHER_FILES_IDS = {}
+
+
+def ident_in_other_files(name, rel):
+    """does the identifier occur in any .rs file of the crate other than rel?"""
+    key = (name, rel)
+    if key not in _OTHER_FILES_IDS:
+        found = False
+        for root, _, files in os.walk(os.path.join(REPO, 'src')):
+            for f in files:
+                p = os.path.join(root, f)
+                if f.endswith('.rs') and os.path.relpath(p, REPO) != rel:
+                    with open(p) as fh:
+                        if re.search(r'\b%s\b' % re.escape(name), fh.read()):
+                            found = True
+        _OTHER_FILES_IDS[key] = found
+    return _OTHER_FILES_IDS[key]
+
+
+def private_fns(toks, match, parent):
+    """the private (no `pub`, `pub(..)`) free fns at the top level of the file"""
+    return [f for f in fn_items(toks, match, parent) if not f['pub'] and f['owner'] == '' and parent[f['fn']] == -1]
+
+
+HARMLESS_ATTRS = ('inline', 'allow', 'doc', 'must_use', 'cold')
+
+
+def site_fn_rename(toks, i, rel):
+    """a private top-level free fn that was renamed together with all its uses in the file is renamed back to the recorded name
+    (EXPECTED_PRIVATE_FNS, from `--dump-binders`).  Renaming a private item to a name that is FRESH is alpha-conversion: checked are
+    * the set of private top-level fn names of the file differs from the recorded set in exactly one name on each side (one fn `new` that
+      is not recorded, one recorded name `old` that is missing), and toks[i] is the `fn` of `new`; it is defined once, is not
+      `pub` / `pub(..)`, is not in an impl or a nested mod, carries no attribute other than inline / allow / doc / must_use / cold
+      (no_mangle, export_name, test .. would make the name observable);
+    * `old` occurs NOWHERE in the file, as an identifier or inside a string literal (format captures, stringify), so nothing is captured
+      or shadowed by it (a local item takes precedence over a glob import, and no other code mentions `old`);
+    * `new` occurs in no other file of the crate (a private fn is visible to child modules only; there is no `super::new` elsewhere), in no
+      string literal of the file, and every occurrence in the file denotes this fn or a local that shadows it consistently: not after
+      `.` / `::`, not before `::`, not a macro name, not a field name, not a lifetime -- if any occurrence is in such a position the
+      pass does nothing.  ALL these occurrences are renamed, so the binding structure is unchanged."""
+    if toks[i] != I_('fn') or i + 1 >= len(toks) or toks[i + 1][0] != 'id':
+        return None
+    rec = EXPECTED_PRIVATE_FNS.get(rel)
+    if rec is None:
+        return None
+    rec = rec.split()
+    match, parent = bmaps(toks)
+    pf = private_fns(toks, match, parent)
+    cur = [f['name'] for f in pf]
+    extra = [n for n in cur if n not in rec]
+    missing = [n for n in rec if n not in cur]
+    if len(extra) != 1 or len(missing) != 1 or len(set(cur)) != len(cur) or len(cur) != len(rec):
+        return None
+    new, old = extra[0], missing[0]
+    f = [f for f in pf if f['name'] == new][0]
+    if f['fn'] != i or sum(1 for g in fn_items(toks, match, parent) if g['name'] == new) != 1:
+        return None
+    p = toks[i - 1] if i > 0 else P_(';')
+    if p == P_(']') and (i - 1) in match:
+        o = match[i - 1]
+        if not (o >= 1 and toks[o - 1] == P_('#') and toks[o + 1][0] == 'id' and toks[o + 1][1] in HARMLESS_ATTRS):
+            return None
+        q = toks[o - 2] if o >= 2 else P_(';')
+        if q not in (P_(';'), P_('}')):
+            return None
+    elif p not in (P_(';'), P_('}')):
+        return None          # pub, async, unsafe, const, extern ..
+    for k, t in enumerate(toks):
+        if t[0] == 'str' and (old in t[1] or new in t[1]):
+            return None
+        if t[1] == old or (t[0] == 'lifetime' and t[1][1:] in (old, new)):
+            return None
+        if t == I_(new) and k != i + 1 and is_var_pos(toks, k, parent) != 'var':
+            return None
+    if ident_in_other_files(new, rel):
+        return None
+    return [I_(old) if t == I_(new) else t for t in toks], len(toks)
+
+
 NORM_PASSES = (('hex', site_hex), ('fold', site_fold), ('commute', site_commute), ('const', site_const), ('not_gte', site_not_gte),
                ('map_or', site_map_or), ('match_some', site_match_some), ('inline_fn', site_inline_fn), ('inline_let', site_inline_let),
                ('loop_collect', site_loop_collect), ('swap_update', site_swap_update))
 NORM_ALL = tuple(n for n, _ in NORM_PASSES if n not in ('commute', 'swap_update'))     # these two flip a site back and forth: only useful site by site
+# the second batch: tried only after EVERY variant of the first batch has been refused (run_front_end), so whatever the first batch
+# made a front end accept is accepted in exactly the same variant as before
+NORM_PASSES2 = (('not_lt', site_not_lt), ('if_lt_swap', site_if_lt_swap), ('match_bool', site_match_bool), ('as_slice', site_as_slice),
+                ('from_widen', site_from_widen), ('ok_or_else', site_ok_or_else), ('iflet_map', site_iflet_map), ('while_let', site_while_let),
+                ('fn_rename', site_fn_rename))
+NORM_PASSES1 = NORM_PASSES
+NORM_PASSES = NORM_PASSES1 + NORM_PASSES2
+NORM_ALL2 = NORM_ALL + tuple(n for n, _ in NORM_PASSES2)
 
 
 # ------------------------------------------------------------------------------------------------
@@ -9087,6 +9523,18 @@ EXPECTED_SUMS = {
     'src/io/ubjson/de.rs': {'|to_val': 'R'},
 }
 
+# ... and the private free fns at the top level of each file (`--dump-binders`); see site_fn_rename
+EXPECTED_PRIVATE_FNS = {
+    'src/game/shift_jis.rs': 'fix_char',
+    'src/io/mod.rs': 'parse_u8 expect_bytes',
+    'src/io/peppi/de.rs': 'read_arrow_frames read_peppi_start read_peppi_end read_peppi_metadata read_peppi_gecko_codes',
+    'src/io/peppi/ser.rs': 'tar_append',
+    'src/io/slippi/de.rs': 'if_more invalid_data player player_bytes handle_splitter_event debug_write_event parse_payloads parse_game_start',
+    'src/io/slippi/ser.rs': 'payload_sizes gecko_codes game_start game_end frame_counts gecko_codes_size',
+    'src/io/ubjson/de.rs': 'to_utf8 to_val to_key read_map_at',
+    'src/io/ubjson/ser.rs': 'write_utf8',
+}
+
 
 def run_front_end(gen):
     """run a front end on the sources as they are (binder names canonicalised); if it fails, once more under each structural
@@ -9109,15 +9557,16 @@ def run_front_end(gen):
                 pass
         tried = []
         levels = []
-        for pname, site in NORM_PASSES:          # 1. one site of one pass at a time
-            for rel in sorted(base):
-                try:
-                    n = apply_pass(site, raw_toks(rel), rel, pick=-1)[1]
-                except Exception:
-                    n = 0
-                levels.extend(((pname, rel, k),) for k in range(min(n, 40)))
-        levels.extend((n,) for n in NORM_ALL)    # 2. one pass everywhere   3. all passes
-        levels.append(NORM_ALL)
+        for batch, everywhere in ((NORM_PASSES1, NORM_ALL), (NORM_PASSES2, tuple(n for n, _ in NORM_PASSES2))):
+            for pname, site in batch:                # 1. one site of one pass at a time
+                for rel in sorted(base):
+                    try:
+                        n = apply_pass(site, raw_toks(rel), rel, pick=-1)[1]
+                    except Exception:
+                        n = 0
+                    levels.extend(((pname, rel, k),) for k in range(min(n, 40)))
+            levels.extend((n,) for n in everywhere)  # 2. one pass everywhere   3. all passes (of the first batch; then of both)
+            levels.append(NORM_ALL if batch is NORM_PASSES1 else NORM_ALL2)
         try:
             for level in levels:
                 NORM_LEVEL = level
@@ -9146,6 +9595,8 @@ def run_front_end(gen):
 FORCED_LEVEL = tuple(x for x in os.environ.get('RUST2COQ_FORCE_PASSES', '').split(',') if x)     # testing aid: always normalise with these passes
 if FORCED_LEVEL == ('all',):
     FORCED_LEVEL = NORM_ALL
+if FORCED_LEVEL == ('all2',):
+    FORCED_LEVEL = NORM_ALL2
 
 
 def main():
@@ -9168,6 +9619,14 @@ def main():
         print('EXPECTED_SUMS = {')
         for rel in sorted(d):
             print('    %r: %r,' % (rel, d[rel]))
+        print('}')
+        print('EXPECTED_PRIVATE_FNS = {')
+        for rel in sorted(rels):
+            toks = tokenize(read(rel), rel)
+            match, parent = bracket_maps(toks)
+            names = [f['name'] for f in private_fns(toks, match, parent)]
+            if names:
+                print('    %r: %r,' % (rel, ' '.join(names)))
         print('}')
         return
     report = {'repo': REPO, 'files': [], 'changed': [], 'errors': []}
